@@ -44,7 +44,9 @@ var cfields = []cfield{
 	{"httpProxyPort", 3, func(c *pb.ClientConfig, k int) { c.HttpProxyPort = proto.Int32([]int32{0, 1, 65535}[k]) },
 		func(c *pb.ClientConfig) proto.Message { return &pb.ClientConfig{HttpProxyPort: c.HttpProxyPort} }},
 	{"httpProxyListenLAN", 2, func(c *pb.ClientConfig, k int) { c.HttpProxyListenLAN = proto.Bool(k == 1) },
-		func(c *pb.ClientConfig) proto.Message { return &pb.ClientConfig{HttpProxyListenLAN: c.HttpProxyListenLAN} }},
+		func(c *pb.ClientConfig) proto.Message {
+			return &pb.ClientConfig{HttpProxyListenLAN: c.HttpProxyListenLAN}
+		}},
 	{"socks5Authentication", 2, func(c *pb.ClientConfig, k int) {
 		c.Socks5Authentication = [][]*pb.Auth{{{User: proto.String("n"), Password: proto.String("q")}}, {{User: proto.String("n"), Password: proto.String("q")}, {User: proto.String("m"), Password: proto.String("r")}}}[k]
 	}, func(c *pb.ClientConfig) proto.Message {
